@@ -20,8 +20,8 @@ import (
 )
 
 const bs = 16         // block edge of every instance
-const annBlocks = 400 // painted blocks available to annotation episodes
-const mergeCols = 2048
+const annBlocks = 800 // painted blocks available to annotation episodes
+const mergeCols = 6144
 
 type world struct {
 	annRepo  string // lm (labelmap), ann (annotation synced to lm), kv (keyvalue)
@@ -192,7 +192,7 @@ func kvPrepare(del bool) func(w *world, n int) prepared {
 			id, found := read(shared)
 			switch {
 			case found:
-				vs = append(vs, view{"data", []int{id}})
+				vs = append(vs, view{Name: "data", IDs: []int{id}})
 			case del:
 				// deleted: the effect of one of the acknowledged deletes
 				d := 0
@@ -201,9 +201,9 @@ func kvPrepare(del bool) func(w *world, n int) prepared {
 						d = a
 					}
 				}
-				vs = append(vs, view{"data", []int{d}})
+				vs = append(vs, view{Name: "data", IDs: []int{d}})
 			default:
-				vs = append(vs, view{"data", nil})
+				vs = append(vs, view{Name: "data", IDs: nil})
 			}
 			for i := 1; i <= n; i++ {
 				own := fmt.Sprintf("k%d-%d", ep, i)
@@ -215,9 +215,9 @@ func kvPrepare(del bool) func(w *world, n int) prepared {
 					continue
 				}
 				if found {
-					vs = append(vs, view{own, []int{id}})
+					vs = append(vs, view{Name: own, IDs: []int{id}})
 				} else {
-					vs = append(vs, view{own, nil})
+					vs = append(vs, view{Name: own, IDs: nil})
 				}
 			}
 			return vs, extra
@@ -299,7 +299,7 @@ func annViews(w *world, b int, n int, withLabel bool, shows func(i int, present 
 				ids = append(ids, i)
 			}
 		}
-		vs = append(vs, view{s.name, ids})
+		vs = append(vs, view{Name: s.name, IDs: ids})
 	}
 	return vs
 }
@@ -463,7 +463,7 @@ func lmMergePrepare(w *world, n int) prepared {
 		} else if lmSize(w, t) != uint64(256*(1+len(inIdx))) {
 			extra = 1 // size of the target is not the sum of the supervoxels its index lists
 		}
-		return []view{{"target", inIdx}, {"mapping", mapped}}, extra
+		return []view{{Name: "target", IDs: inIdx}, {Name: "mapping", IDs: mapped}}, extra
 	}
 	return p
 }
@@ -514,7 +514,7 @@ func lmCleavePrepare(w *world, n int) prepared {
 		if extra == 0 && lmSize(w, t) != uint64(256*(1+n-len(gone))) {
 			extra = 1
 		}
-		return []view{{"target", gone}, {"mapping", mapped}}, extra
+		return []view{{Name: "target", IDs: gone}, {Name: "mapping", IDs: mapped}}, extra
 	}
 	return p
 }
@@ -552,7 +552,7 @@ func lmChangeIndexPrepare(w *world, n int) prepared {
 				}
 			}
 		}
-		return []view{{"target", ids}}, extra
+		return []view{{Name: "target", IDs: ids}}, extra
 	}
 	return p
 }
@@ -620,7 +620,7 @@ func njPrepare(w *world, n int) prepared {
 		if fmt.Sprint(mem) != fmt.Sprint(ch) {
 			extra = 1 // memory copy changed by commit + newversion
 		}
-		return []view{{"store", st}, {"mem", mem}}, extra
+		return []view{{Name: "store", IDs: st}, {Name: "mem", IDs: mem}}, extra
 	}
 	return p
 }
@@ -734,7 +734,7 @@ func dagPrepare(branch bool) func(w *world, n int) prepared {
 				}
 			}
 			w.dagP = next
-			return []view{{"children", ids}}, extra
+			return []view{{Name: "children", IDs: ids}}, extra
 		}
 		return p
 	}
@@ -784,7 +784,7 @@ func mixedPrepare(w *world, s *siteDef, site2 string) prepared {
 		if cleaved != 0 && lmLabelAt(w, int(sv)-1) == cleaved {
 			mapped = append(mapped, 2)
 		}
-		return []view{{"target", inIdx}, {"mapping", mapped}}, 0
+		return []view{{Name: "target", IDs: inIdx}, {Name: "mapping", IDs: mapped}}, 0
 	}
 	return p
 }
@@ -849,7 +849,7 @@ func livePrepare(w *world, s *siteDef, yield string) prepared {
 			fatal("live episode: newversion failed")
 		}
 		w.dagP = childA
-		return []view{{"children", ids}}, extra
+		return []view{{Name: "children", IDs: ids}}, extra
 	}
 	return p
 }
